@@ -2,7 +2,7 @@
     parameterised by the accessor/table lists that tools/go2coq generated from
     the source in this very run. *)
 From Coq Require Import NArith List String Bool.
-From CSS Require Import Lib.Cases Lib.SymBits Lib.RegTypes Lib.RegOblig Model.Registers Model.RegisterHeap.
+From CSS Require Import Lib.Cases Lib.SymBits Lib.RegTypes Lib.RegOblig Model.Registers Model.RegisterHeap Model.RegistersDec.
 Import ListNotations.
 Open Scope N_scope.
 
@@ -24,6 +24,20 @@ Inductive case : Type :=
    when it is fresh); at the end [enc_bytes] of how every value reads.  Field names are
    compared by the CFields cases. *)
 | CSession (ops : list sop) (obs : list (list (N * N * N * nat))) (fin : list N)
+(* registers.CalculateRegisterFields(raw, size, tab) called directly on ANY table: [None] = the
+   call panicked; else the fields (name, offset, size, value) and whether the result was nil *)
+| CCalc (raw size : N) (tab : list (string * N)) (res : option (list (string * N * N * N) * bool))
+(* a decoder of pkg/tools ([which] = ParseTXTRegs | ReadACMStatus | ReadACMPolicyStatusRaw |
+   ReadBootStatusRaw) on an image of ANY length (sparse, as in CRead): the leaf fields of what it
+   returned, in the order of [parse_fields] (booleans as 0/1), and the error: 0 = nil,
+   1 = io.EOF, 2 = io.ErrUnexpectedEOF, 3 = anything else *)
+| CTools (which : string) (len : N) (bytes : list (N * N)) (fields : list N) (err : N)
+(* registers.ReadMSRRegisters with a reader that answers [rd] (MSR number -> value | None = error;
+   numbers not listed fail): the collection, the IDs in the MultiError, the MSR numbers the reader
+   was asked for, in call order *)
+| CMsr (rd : list (N * option N)) (regs : list (string * N)) (errs : list string) (trace : list N)
+(* Registers.Find(id) on a hand-built collection (IDs may repeat): raw value of what was found *)
+| CFind (regs : list (string * N)) (id : string) (res : option N)
 with sop :=
 | SFields (reg : string) (raw : N)
 | SKey (key : N)                        (* the 32 key bytes as a little-endian number *)
@@ -72,6 +86,25 @@ Fixpoint read_regs_sparse (layout : list (string * nat * nat)) (len : N) (bytes 
       end
   end.
 
+Fixpoint read_seq_sparse (layout : list (string * nat * nat)) (len : N) (bytes : list (N * N))
+  : list (string * N) * option (string * read_err) :=
+  match layout with
+  | [] => ([], None)
+  | (s, off, n) :: t =>
+      match read_sparse len bytes off n with
+      | Some v => let r := read_seq_sparse t len bytes in ((s, v) :: fst r, snd r)
+      | None => ([], Some (s, err_sparse len off))
+      end
+  end.
+
+Fixpoint rd_of (l : list (N * option N)) (a : N) : option N :=
+  match l with
+  | [] => None
+  | (k, v) :: t => if N.eqb k a then v else rd_of t a
+  end.
+Definition optN_eqb (a b : option N) : bool :=
+  match a, b with Some x, Some y => N.eqb x y | None, None => true | _, _ => false end.
+
 Definition err_code (e : read_err) : N := match e with ErrEOF => 0 | ErrUnexpectedEOF => 1 end.
 Definition reg_eqb (a b : string * N) : bool := String.eqb (fst a) (fst b) && N.eqb (snd a) (snd b).
 
@@ -110,6 +143,25 @@ Definition check (accs : list accessor) (tabs : list table) (c : case) : bool :=
                        && list_eqb N.eqb (map enc_bytes (final s)) fin
       | None => false
       end
+  | CCalc raw size tab res =>
+      match calc_go raw size tab, res with
+      | None, None => true
+      | Some (fs, isnil), Some (fs', isnil') => fields4_eqb fs fs' && Bool.eqb isnil isnil'
+      | _, _ => false
+      end
+  | CTools which len bytes fields err =>
+      match tools_decoder which with
+      | None => false
+      | Some (lay, flds) =>
+          let r := read_seq_sparse lay len bytes in
+          list_eqb optN_eqb (tools_fields accs flds (fst r)) (map Some fields) &&
+          N.eqb (match snd r with None => 0 | Some (_, e) => 1 + err_code e end) err
+      end
+  | CMsr rd regs errs trace =>
+      let r := read_msrs (rd_of rd) in
+      list_eqb reg_eqb (fst r) regs && list_eqb String.eqb (snd r) errs &&
+      list_eqb N.eqb (msr_trace msr_layout) trace
+  | CFind regs id res => optN_eqb (find_reg id regs) res
   end.
 
 Definition mismatches_gen (accs : list accessor) (tabs : list table) := mismatches_by (check accs tabs).
